@@ -29,6 +29,11 @@ def classify(fn, bb):
     blocks = fn["blocks"]
     t = blocks[bb]["t"]
     cur = t["dest"]["l"]
+    # an `IntoIterator::into_iter` / `iter()` impl of a workspace wrapper type that merely hands the container's iterator on
+    # (`fn into_iter(self) -> Self::IntoIter { self.0.into_iter() }`): nothing is consumed here; what the order means is
+    # decided where that iterator is consumed
+    if cur == 0 and not t["dest"]["p"] and fn.get("impl_trait") in ("std::iter::IntoIterator",) and fn.get("name") == "into_iter":
+        return "neutral", "the wrapper's into_iter() returns the container's iterator unconsumed"
     seen = set()
     cfg = mir.CFG(fn)
     # forward: follow the local through moves and adaptor calls
